@@ -858,6 +858,37 @@ pub fn family(name: &str, k: usize) -> Vec<Vec<u8>> {
             d.extend(body);
             vec![d]
         }
+        "ipfix-varlen-data-sets" => {
+            // k data sets of one short record each under a variable-length template
+            let t = IpfixMsg { export_time: 0, seq: 0, domain: 0, sets: vec![IpfixSet::Template { records: vec![IpfixTmpl { id: 256, fields: vec![IpfixSpec { type_num: 82, len: 65535, enterprise: None }] }], padding: vec![] }] };
+            let mut d = ixhdr(16 + 7 * k);
+            for _ in 0..k {
+                p16(&mut d, 256);
+                p16(&mut d, 7);
+                d.extend_from_slice(&[2, b'h', b'i']);
+            }
+            vec![t.wire(), d]
+        }
+        "v9-small-data-flowsets-wide-template" => {
+            // k data flowsets of one record each under a 16-field template
+            let nf = 16usize;
+            let mut t = v9hdr(1);
+            p16(&mut t, 0);
+            p16(&mut t, (8 + 4 * nf) as u16);
+            p16(&mut t, 256);
+            p16(&mut t, nf as u16);
+            for i in 0..nf {
+                p16(&mut t, 1 + (i % 2) as u16);
+                p16(&mut t, 4);
+            }
+            let mut d = v9hdr(k as u16);
+            for _ in 0..k {
+                p16(&mut d, 256);
+                p16(&mut d, (4 + 4 * nf) as u16);
+                d.extend(vec![7u8; 4 * nf]);
+            }
+            vec![t, d]
+        }
         "mixed-version-chain" => {
             // k groups of (V5 header, V7 header, V9 header, IPFIX header)
             let mut d = vec![];
@@ -919,6 +950,8 @@ pub const FAMILIES: &[(&str, usize)] = &[
     ("ipfix-ones-records", 8192),
     ("v9-kind-flips", 2048),
     ("ipfix-kind-flips", 2048),
+    ("ipfix-varlen-data-sets", 8192),
+    ("v9-small-data-flowsets-wide-template", 512),
 ];
 
 /// Fill all four caches of a parser with `p` unrelated templates of 64 fields each (ids from 20000
@@ -1145,6 +1178,37 @@ pub fn run(w: &mut W) {
             }
             j += 1;
         }
+    }
+    // ---- 4e. history independence: a small member (k = 64) on a parser that has just decoded the
+    //      largest member of the same family (same templates, a much bigger buffer) must not
+    //      request more than on a fresh parser: what earlier buffers looked like is not an input
+    for (name, maxk) in FAMILIES {
+        if w.oneoff(j) {
+            let _ = w.begin_case(crate::worker::ONEOFF + j, name);
+            let k = 64usize.min(*maxk);
+            let (c1, _) = run_family(name, k);
+            let mut sut = Sut::new(1);
+            for b in &family(name, *maxk) {
+                let _ = sut.parsers[0].parse_bytes(b);
+            }
+            // a single huge record / set first as well (for per-id high-water marks)
+            let mut last = None;
+            for b in &family(name, k) {
+                last = Some(measure(&mut sut, 0, b));
+            }
+            let c2 = last.unwrap();
+            w.rep.count("history_pairs", 1);
+            w.rep.count("calls_measured", 2);
+            let a1 = c1.m.requested as f64;
+            let a2 = c2.m.requested as f64;
+            w.rep.max("history.max_requested_extra", (a2 - a1).max(0.0));
+            w.rep.shape(&format!("history {} k={}", name, k));
+            if a2 > a1 + 262144.0 {
+                let d = div(&format!("cost/history/{}", name), "requested-depends-on-earlier-buffers", format!("{} bytes requested for the k={} member after the parser had decoded the k={} member of the same family, {} on a fresh parser", a2, k, maxk, a1));
+                w.rep.violation(format!("C15|cost/history/{}|requested-depends-on-earlier-buffers", name), &d, json!({"family": name, "k": k, "history": format!("family member k={} first", maxk)}));
+            }
+        }
+        j += 1;
     }
     // ---- 4d. announced-length independence: k short data flowsets / sets under a cached template
     //      whose (last) field announces 64 bytes, and the same buffer under a template announcing
